@@ -23,6 +23,7 @@ type Options struct {
 	OnlyTypes            []types.TxType
 	Zones                bool // give replicas different host time zones
 	Restarts             bool // restart replicas from their DB at drawn points
+	LateBatches          bool // some offers are admitted one block late against the view of the previous head (see Step)
 	FatTxs               bool // see World.FatTxs
 	Upgrades             bool // worlds that start on consensus version 9 activate 10, 11, 12 at drawn block boundaries
 	Params               func(*Params)
@@ -36,7 +37,13 @@ type Options struct {
 	BetweenBlocks func(h *History)
 }
 
+type delayedOffer struct {
+	tx     *types.Transaction
+	height uint64
+}
+
 type History struct {
+	delayed []delayedOffer
 	T       *rapid.T
 	W       *World
 	Opt     Options
@@ -130,10 +137,42 @@ func (h *History) Step() {
 	if min := time.Unix(base.Head().Time(), 0).Add(10 * time.Second); w.Now().Before(min) {
 		w.SetNow(min)
 	}
+	// the rest of a network batch whose admission overlapped the insertion of the previous block: the pool validates
+	// it against the view of the head it took when the batch arrived (TxPool.AddExternalTxs), i.e. the previous head
+	for _, d := range h.delayed {
+		for _, r := range w.Replicas {
+			if view, err := r.AppState.Readonly(d.height); err == nil && r.Head().Height() > d.height {
+				if r.Pool.VerifAddAgainst(WireCopyTx(d.tx), view, validation.InboundTx) == nil {
+					h.Flags["lateBatchTxAdmitted"]++
+				}
+			}
+		}
+	}
+	h.delayed = nil
 	// offers
 	n := rapid.IntRange(0, opt.MaxTxPerStep).Draw(t, "nOffers")
 	for i := 0; i < n; i++ {
 		tx, info := w.GenTx(t, base, opt.OnlyTypes)
+		if opt.LateBatches && rapid.IntRange(0, 5).Draw(t, "lateBatch") == 0 {
+			h.delayed = append(h.delayed, delayedOffer{tx, base.Head().Height()})
+			continue
+		}
+		if opt.LateBatches && info.Hostile == "" && info.Sender != nil && rapid.IntRange(0, 3).Draw(t, "lateSibling") == 0 {
+			// a second transaction of the same sender and kind with the next nonce, in the late part of the batch: valid
+			// on the view it is admitted against, stale once its elder sibling has been mined
+			for try := 0; try < 3; try++ {
+				sib, sinfo := w.GenTx(t, base, []types.TxType{tx.Type})
+				if sinfo.Sender != info.Sender || sinfo.Hostile != "" {
+					continue
+				}
+				c := *WireCopyTx(sib)
+				c.AccountNonce, c.Signature = tx.AccountNonce+1, nil
+				if signed, err := types.SignTx(&c, info.Sender.Key); err == nil {
+					h.delayed = append(h.delayed, delayedOffer{signed, base.Head().Height()})
+				}
+				break
+			}
+		}
 		var firstErr error
 		for j, r := range w.Replicas {
 			kind := validation.InboundTx
